@@ -7,6 +7,8 @@ mkdir -p bin
 # the harness module resolves /repo through a replace directive; keep go.sum in sync with /repo's
 cat "$REPO_DIR/go.sum" harness/go.sum.extra 2>/dev/null | sort -u > harness/go.sum
 python3 overlay/gen.py > bin/overlay.json
+# background runs against a snapshot of the repository (vp run --with-repo): REPO_DIR=$VP_RUN_REPO
+if [ "$REPO_DIR" != /repo ]; then (cd harness && "$GO" mod edit -replace "github.com/spq/pkappa2=$REPO_DIR"); fi
 (cd harness && "$GO" build -tags verif -overlay "$VERIF_DIR/bin/overlay.json" -o "$VERIF_DIR/bin/vcheck" ./cmd/vcheck && "$GO" build -o "$VERIF_DIR/bin/vconv" ./cmd/vconv)
 if [ "${1:-}" = race ]; then
   # C20: the same binary with the race detector
